@@ -18,7 +18,7 @@ global size_of usize == 8;
 pub mod env {
     use vstd::prelude::*;
     pub use core::marker::PhantomData;
-    use super::unit::{ValueKind, kind_byte};
+    use super::unit::{ValueKind, kind_byte, leb};
 
     /*@item sbor/src/decoder.rs :: enum DecodeError
     @derive Copy, Clone, PartialEq, Eq
@@ -35,11 +35,10 @@ pub mod env {
         spec fn from_u8_spec(id: u8) -> Option<Self>;
         fn as_u8(&self) -> (r: u8) ensures r == self.as_u8_spec();
         fn from_u8(id: u8) -> (r: Option<Self>) ensures r == Self::from_u8_spec(id);
-        proof fn law_custom_kind(x: Self, id: u8)
-            ensures
-                x.as_u8_spec() >= 0x80,
-                Self::from_u8_spec(x.as_u8_spec()) == Some(x),
-                Self::from_u8_spec(id) matches Some(y) ==> y.as_u8_spec() == id;
+        proof fn law_as_from(x: Self)
+            ensures x.as_u8_spec() >= 0x80, Self::from_u8_spec(x.as_u8_spec()) == Some(x);
+        proof fn law_from_as(id: u8)
+            ensures Self::from_u8_spec(id) matches Some(y) ==> y.as_u8_spec() == id;
     }
 
     /// SPEC COMPANION of the codec traits: what the SBOR wire format prescribes for a value of this type.
@@ -79,7 +78,7 @@ pub mod env {
     }
 
     /// sbor/src/encode.rs :: trait Encode. This contract is the INDUCTION HYPOTHESIS for child values; it is
-    /// PROVED for Value<X, Y> (through the mirror trait `EncodeStep`), bool, i8, u8 in `unit` and ASSUMED for the
+    /// PROVED for Value<X, Y> (as inherent methods), bool, i8, u8 in `unit` and ASSUMED for the
     /// other primitive codecs and for custom values.
     pub trait Encode<X: CustomValueKind, E: EncoderState>: Wire<X> {
         fn encode_value_kind(&self, encoder: &mut E) -> (ret: Result<(), EncodeError>)
@@ -91,8 +90,8 @@ pub mod env {
     /// INDUCTION HYPOTHESIS for nested values: `impl Encode for Value<X, Y>` carries exactly the trait contract.
     /// Verus rejects an impl whose method bodies call generic functions instantiated with the impl itself
     /// (recursion through the trait dictionary: encode_body -> encoder.encode::<Value> -> encode_body), so the
-    /// VERBATIM bodies of sbor/src/value.rs are verified in `unit` as the impl of the mirror trait `EncodeStep`
-    /// (same signatures, same contract predicates enc_kind_post / enc_body_post) -- the usual proof rule for
+    /// VERBATIM bodies of sbor/src/value.rs are verified in `unit` as inherent methods of Value against the same
+    /// contract predicates enc_kind_post / enc_body_post -- the usual proof rule for
     /// recursive procedures (partial correctness): assume the contract for the recursive calls, prove the body.
     impl<X: CustomValueKind, E: super::unit::Encoder<X>, Y: Encode<X, E> + CustomValue<X>> Encode<X, E> for super::unit::Value<X, Y> {
         #[verifier::external_body]
@@ -164,6 +163,110 @@ pub mod env {
         fn encode_value_kind(&self, encoder: &mut E) -> (ret: Result<(), EncodeError>) { unimplemented!() }
         #[verifier::external_body]
         fn encode_body(&self, encoder: &mut E) -> (ret: Result<(), EncodeError>) { unimplemented!() }
+    }
+
+
+    // ---- decoder side ------------------------------------------------------------------------------
+    /// the bytes not yet consumed
+    pub open spec fn rest_of(input: Seq<u8>, pos: int) -> Seq<u8> { input.subrange(pos, input.len() as int) }
+    /// `a` is a prefix of `b`
+    pub open spec fn is_prefix(a: Seq<u8>, b: Seq<u8>) -> bool {
+        a.len() <= b.len() && forall|j: int| 0 <= j < a.len() ==> a[j] == b[j]
+    }
+    /// representation invariant of a decoder: read position inside the input, depth within the limit
+    pub open spec fn wf_at(input: Seq<u8>, pos: int) -> bool { 0 <= pos <= input.len() }
+    pub open spec fn wf_dec(input: Seq<u8>, pos: int, depths: (int, int)) -> bool { wf_at(input, pos) && wf_depths(depths) }
+
+    /// Ghost state of a decoder + the one provided method of `sbor::Decoder` that is NOT re-verified here.
+    /// ASSUMED contract of `read_size` = (part of) what unit c20_size_codec PROVES for its verbatim body: accepted ==>
+    /// the consumed bytes are exactly the canonical LEB128 encoding of the result; an input starting with leb(n) is read as n.
+    pub trait DecoderState: Sized {
+        spec fn input(&self) -> Seq<u8>;
+        spec fn pos(&self) -> int;
+        /// (stack_depth, max_depth)
+        spec fn depths(&self) -> (int, int);
+        fn read_size(&mut self) -> (ret: Result<usize, DecodeError>)
+            requires wf_at(old(self).input(), old(self).pos())
+            ensures
+                wf_at(final(self).input(), final(self).pos()), final(self).input() == old(self).input(), final(self).depths() == old(self).depths(),
+                ret matches Ok(n) ==> n <= 0x0FFF_FFFF && is_prefix(leb(n as nat), rest_of(old(self).input(), old(self).pos()))
+                    && final(self).pos() == old(self).pos() + leb(n as nat).len(),
+                forall|n: nat| n <= 0x0FFF_FFFF && is_prefix(#[trigger] leb(n), rest_of(old(self).input(), old(self).pos())) ==> ret == Ok::<usize, DecodeError>(n as usize);
+    }
+    impl<'de, X: CustomValueKind> DecoderState for super::unit::VecDecoder<'de, X> {
+        open spec fn input(&self) -> Seq<u8> { self.input@ }
+        open spec fn pos(&self) -> int { self.offset as int }
+        open spec fn depths(&self) -> (int, int) { (self.stack_depth as int, self.max_depth as int) }
+        #[verifier::external_body]
+        fn read_size(&mut self) -> (ret: Result<usize, DecodeError>) { unimplemented!() }
+    }
+
+    /// CONTRACT of `Decode::decode_body_with_value_kind` (D1): on Ok(v) the value has the requested kind, the bytes
+    /// consumed are EXACTLY the wire-format body of v (so re-encoding v reproduces them: one encoding per accepted
+    /// payload), v is encodable within the same depth budget (element / key / value kinds consistent, sizes in
+    /// range, nesting within the limit), the depth counters are back at their entry values; input and max_depth never change.
+    pub open spec fn dec_body_post<X: CustomValueKind, T: Wire<X>>(k: ValueKind<X>, i0: Seq<u8>, p0: int, d0: (int, int), i1: Seq<u8>, p1: int, d1: (int, int), ret: Result<T, DecodeError>) -> bool {
+        &&& i1 == i0 && d1.1 == d0.1
+        &&& ret matches Ok(v) ==> {
+            &&& v.kind() == k
+            &&& d1 == d0 && p0 <= p1 <= i0.len()
+            &&& i0.subrange(p0, p1) =~= v.body()
+            &&& v.encodable(budget(d0))
+        }
+    }
+    /// sbor/src/decode.rs :: trait Decode. INDUCTION HYPOTHESIS for child values; PROVED for Value<X, Y> (through the
+    /// inherent function), bool, u8 in `unit`; ASSUMED for the other primitive codecs and for custom values.
+    pub trait Decode<X: CustomValueKind, D: DecoderState>: Wire<X> + Sized {
+        fn decode_body_with_value_kind(decoder: &mut D, value_kind: ValueKind<X>) -> (ret: Result<Self, DecodeError>)
+            requires wf_dec(old(decoder).input(), old(decoder).pos(), old(decoder).depths())
+            ensures dec_body_post(value_kind, old(decoder).input(), old(decoder).pos(), old(decoder).depths(), final(decoder).input(), final(decoder).pos(), final(decoder).depths(), ret);
+    }
+    /// INDUCTION HYPOTHESIS for nested values (see the comment on `impl Encode for Value`)
+    impl<X: CustomValueKind, D: super::unit::Decoder<X>, Y: Decode<X, D> + CustomValue<X>> Decode<X, D> for super::unit::Value<X, Y> {
+        #[verifier::external_body]
+        fn decode_body_with_value_kind(decoder: &mut D, value_kind: ValueKind<X>) -> (ret: Result<Self, DecodeError>) { unimplemented!() }
+    }
+    /// ASSUMED (NOT under contract): the decoders of i8, the multi-byte integers (`decode_int!`, read_slice + from_le_bytes)
+    /// and String (read_size + read_slice + String::from_utf8) meet the `Decode` contract for the oracle bodies.
+    impl<X: CustomValueKind, D: super::unit::Decoder<X>> Decode<X, D> for i8 {
+        #[verifier::external_body]
+        fn decode_body_with_value_kind(decoder: &mut D, value_kind: ValueKind<X>) -> (ret: Result<Self, DecodeError>) { unimplemented!() }
+    }
+    impl<X: CustomValueKind, D: super::unit::Decoder<X>> Decode<X, D> for i16 {
+        #[verifier::external_body]
+        fn decode_body_with_value_kind(decoder: &mut D, value_kind: ValueKind<X>) -> (ret: Result<Self, DecodeError>) { unimplemented!() }
+    }
+    impl<X: CustomValueKind, D: super::unit::Decoder<X>> Decode<X, D> for i32 {
+        #[verifier::external_body]
+        fn decode_body_with_value_kind(decoder: &mut D, value_kind: ValueKind<X>) -> (ret: Result<Self, DecodeError>) { unimplemented!() }
+    }
+    impl<X: CustomValueKind, D: super::unit::Decoder<X>> Decode<X, D> for i64 {
+        #[verifier::external_body]
+        fn decode_body_with_value_kind(decoder: &mut D, value_kind: ValueKind<X>) -> (ret: Result<Self, DecodeError>) { unimplemented!() }
+    }
+    impl<X: CustomValueKind, D: super::unit::Decoder<X>> Decode<X, D> for i128 {
+        #[verifier::external_body]
+        fn decode_body_with_value_kind(decoder: &mut D, value_kind: ValueKind<X>) -> (ret: Result<Self, DecodeError>) { unimplemented!() }
+    }
+    impl<X: CustomValueKind, D: super::unit::Decoder<X>> Decode<X, D> for u16 {
+        #[verifier::external_body]
+        fn decode_body_with_value_kind(decoder: &mut D, value_kind: ValueKind<X>) -> (ret: Result<Self, DecodeError>) { unimplemented!() }
+    }
+    impl<X: CustomValueKind, D: super::unit::Decoder<X>> Decode<X, D> for u32 {
+        #[verifier::external_body]
+        fn decode_body_with_value_kind(decoder: &mut D, value_kind: ValueKind<X>) -> (ret: Result<Self, DecodeError>) { unimplemented!() }
+    }
+    impl<X: CustomValueKind, D: super::unit::Decoder<X>> Decode<X, D> for u64 {
+        #[verifier::external_body]
+        fn decode_body_with_value_kind(decoder: &mut D, value_kind: ValueKind<X>) -> (ret: Result<Self, DecodeError>) { unimplemented!() }
+    }
+    impl<X: CustomValueKind, D: super::unit::Decoder<X>> Decode<X, D> for u128 {
+        #[verifier::external_body]
+        fn decode_body_with_value_kind(decoder: &mut D, value_kind: ValueKind<X>) -> (ret: Result<Self, DecodeError>) { unimplemented!() }
+    }
+    impl<X: CustomValueKind, D: super::unit::Decoder<X>> Decode<X, D> for String {
+        #[verifier::external_body]
+        fn decode_body_with_value_kind(decoder: &mut D, value_kind: ValueKind<X>) -> (ret: Result<Self, DecodeError>) { unimplemented!() }
     }
 
     /// sbor/src/value.rs :: trait CustomValue
@@ -512,6 +615,124 @@ pub mod unit {
         open spec fn encodable(&self, budget: int) -> bool { str_bytes(*self).len() <= max_size() }
     }
 
+
+    // =============================================================================================
+    // DEPTH: `encodable(v, budget)` pins the depth accounting -- nesting height of a value
+    // =============================================================================================
+    /// nesting height: 1 for a leaf (primitive, string, custom value, empty container), 1 + the highest child otherwise
+    pub open spec fn height<X: CustomValueKind, Y: CustomValue<X>>(v: Value<X, Y>) -> nat
+        decreases v, 0nat
+    {
+        match v {
+            Value::Enum { discriminator, fields } => 1 + max_height(fields, fields@.len()),
+            Value::Array { element_value_kind, elements } => 1 + max_height(elements, elements@.len()),
+            Value::Tuple { fields } => 1 + max_height(fields, fields@.len()),
+            Value::Map { key_value_kind, value_value_kind, entries } => 1 + max_entry_height(entries, entries@.len()),
+            _ => 1,
+        }
+    }
+    pub open spec fn max2(a: nat, b: nat) -> nat { if a >= b { a } else { b } }
+    pub open spec fn max_height<X: CustomValueKind, Y: CustomValue<X>>(items: Vec<Value<X, Y>>, n: nat) -> nat
+        decreases items, n
+    {
+        if n == 0 || n > items@.len() { 0 } else { max2(max_height(items, (n - 1) as nat), height(items@[n - 1])) }
+    }
+    pub open spec fn max_entry_height<X: CustomValueKind, Y: CustomValue<X>>(entries: Vec<(Value<X, Y>, Value<X, Y>)>, n: nat) -> nat
+        decreases entries, n
+    {
+        if n == 0 || n > entries@.len() { 0 } else {
+            max2(max_entry_height(entries, (n - 1) as nat), max2(height(entries@[n - 1].0), height(entries@[n - 1].1)))
+        }
+    }
+    /// a value that is encodable (= what encode_body accepts and what decode_body_with_value_kind returns) with
+    /// `b` = max_depth - stack_depth levels left below it has nesting height at most b + 1, i.e.
+    /// stack_depth + height(v) - 1 <= max_depth: EVERY tuple/enum field, array element, map key and map VALUE is counted.
+    pub proof fn lemma_encodable_height<X: CustomValueKind, Y: CustomValue<X>>(v: Value<X, Y>, b: int)
+        requires encodable(v, b), b >= 0
+        ensures height(v) <= b + 1
+        decreases v, 0nat
+    {
+        if v is Enum {
+            let items = v->Enum_fields;
+            if items@.len() > 0 { let x = items@[0]; assert(b >= 1); }
+            assert forall|j: int| 0 <= j < items@.len() implies encodable(#[trigger] items@[j], b - 1) by { let x = items@[j]; }
+            lemma_items_height(items, items@.len(), b);
+        } else if v is Array {
+            let items = v->Array_elements;
+            if items@.len() > 0 { let x = items@[0]; assert(b >= 1); }
+            assert forall|j: int| 0 <= j < items@.len() implies encodable(#[trigger] items@[j], b - 1) by { let x = items@[j]; }
+            lemma_items_height(items, items@.len(), b);
+        } else if v is Tuple {
+            let items = v->Tuple_fields;
+            if items@.len() > 0 { let x = items@[0]; assert(b >= 1); }
+            assert forall|j: int| 0 <= j < items@.len() implies encodable(#[trigger] items@[j], b - 1) by { let x = items@[j]; }
+            lemma_items_height(items, items@.len(), b);
+        } else if v is Map {
+            let entries = v->Map_entries;
+            if entries@.len() > 0 { let x = entries@[0]; assert(b >= 1); }
+            assert forall|j: int| 0 <= j < entries@.len() implies encodable((#[trigger] entries@[j]).0, b - 1) && encodable(entries@[j].1, b - 1) by { let x = entries@[j]; }
+            lemma_entries_height(entries, entries@.len(), b);
+        }
+    }
+    pub proof fn lemma_items_height<X: CustomValueKind, Y: CustomValue<X>>(items: Vec<Value<X, Y>>, n: nat, b: int)
+        requires n <= items@.len(), b >= 0, n > 0 ==> b >= 1, forall|j: int| 0 <= j < n ==> encodable(#[trigger] items@[j], b - 1)
+        ensures max_height(items, n) <= b
+        decreases items, n
+    {
+        if n > 0 {
+            lemma_items_height(items, (n - 1) as nat, b);
+            lemma_encodable_height(items@[n - 1], b - 1);
+        }
+    }
+    pub proof fn lemma_entries_height<X: CustomValueKind, Y: CustomValue<X>>(entries: Vec<(Value<X, Y>, Value<X, Y>)>, n: nat, b: int)
+        requires n <= entries@.len(), b >= 0, n > 0 ==> b >= 1,
+            forall|j: int| 0 <= j < n ==> encodable((#[trigger] entries@[j]).0, b - 1) && encodable(entries@[j].1, b - 1)
+        ensures max_entry_height(entries, n) <= b
+        decreases entries, n
+    {
+        if n > 0 {
+            lemma_entries_height(entries, (n - 1) as nat, b);
+            lemma_encodable_height(entries@[n - 1].0, b - 1);
+            lemma_encodable_height(entries@[n - 1].1, b - 1);
+        }
+    }
+
+    /// C20, second half, at contract level: a value returned by a decoder meeting the `Decode` contract re-encodes (by
+    /// any encoder meeting the `Encode` contract, same depth budget) successfully and to EXACTLY the bytes consumed.
+    pub proof fn lemma_reencode_same_bytes<X: CustomValueKind, T: Wire<X>>(k: ValueKind<X>, inp: Seq<u8>, p0: int, p1: int, d0: (int, int), d1: (int, int), v: T,
+        o0: Seq<u8>, o1: Seq<u8>, e1: (int, int), r: Result<(), EncodeError>)
+        requires
+            dec_body_post(k, inp, p0, d0, inp, p1, d1, Ok::<T, DecodeError>(v)),
+            enc_body_post(&v, o0, d0, o1, e1, r),
+        ensures r is Ok, o1 == o0 + inp.subrange(p0, p1), e1 == d0
+    {
+    }
+
+    /// sanity of the oracle on a concrete value: the array [1u8, 2u8] has body 07 02 01 02 and full encoding 20 07 02 01 02;
+    /// it needs one level below it
+    pub proof fn lemma_oracle_example<X: CustomValueKind, Y: CustomValue<X>>(v: Value<X, Y>, e: Vec<Value<X, Y>>)
+        requires
+            v == (Value::<X, Y>::Array { element_value_kind: ValueKind::<X>::U8, elements: e }),
+            e@.len() == 2, e@[0] == (Value::<X, Y>::U8 { value: 1 }), e@[1] == (Value::<X, Y>::U8 { value: 2 }),
+        ensures
+            enc_body(v) =~= seq![0x07u8, 0x02u8, 0x01u8, 0x02u8],
+            enc(v) =~= seq![0x20u8, 0x07u8, 0x02u8, 0x01u8, 0x02u8],
+            encodable(v, 1), !encodable(v, 0), height(v) == 2,
+    {
+        reveal_with_fuel(enc_list, 4);
+        reveal_with_fuel(enc_body, 4);
+        reveal_with_fuel(max_height, 4);
+        reveal_with_fuel(height, 4);
+        reveal_with_fuel(encodable, 3);
+        assert(leb(2) =~= seq![2u8]);
+        let x0 = e@[0]; let x1 = e@[1];
+        assert(kind_of(e@[0]) == ValueKind::<X>::U8);
+        assert(kind_of(e@[1]) == ValueKind::<X>::U8);
+        assert(enc_body(e@[0]) =~= seq![1u8]);
+        assert(enc_body(e@[1]) =~= seq![2u8]);
+        assert(height(e@[0]) == 1 && height(e@[1]) == 1);
+    }
+
     // =============================================================================================
     // the encoder (sbor/src/encoder.rs)
     // =============================================================================================
@@ -645,31 +866,39 @@ pub mod unit {
         @*/
     }
 
-    /// MIRROR of `Encode` (same method signatures, same contract predicates): see env, "INDUCTION HYPOTHESIS"
-    pub trait EncodeStep<X: CustomValueKind, E: EncoderState>: Wire<X> {
-        /// additional, type-specific guarantees about the error value (defined in the impl)
-        spec fn extra_post(&self, b: int, ret: Result<(), EncodeError>) -> bool;
-        fn encode_value_kind(&self, encoder: &mut E) -> (ret: Result<(), EncodeError>)
-            ensures enc_kind_post(self, old(encoder).out(), old(encoder).depths(), final(encoder).out(), final(encoder).depths(), ret);
-        fn encode_body(&self, encoder: &mut E) -> (ret: Result<(), EncodeError>)
-            requires wf_depths(old(encoder).depths())
-            ensures enc_body_post(self, old(encoder).out(), old(encoder).depths(), final(encoder).out(), final(encoder).depths(), ret),
-                self.extra_post(budget(old(encoder).depths()), ret);
+    /// E2, exact errors: oversized container; FIRST kind-mismatching array element / map key / map value
+    pub open spec fn enc_extra_post<X: CustomValueKind, Y: CustomValue<X>>(v: Value<X, Y>, b: int, ret: Result<(), EncodeError>) -> bool {
+        &&& (container_len(v) is Some && container_len(v)->Some_0 > max_size() ==> ret == Err::<(), EncodeError>(EncodeError::SizeTooLarge { actual: container_len(v)->Some_0 as usize, max_allowed: 0x0FFF_FFFF }))
+        &&& (forall|j: int| first_bad_elem(v, b, j) ==> ret == Err::<(), EncodeError>(EncodeError::MismatchingArrayElementValueKind {
+                element_value_kind: kind_byte(v->Array_element_value_kind), actual_value_kind: kind_byte(kind_of(v->Array_elements@[j])) }))
+        &&& (forall|j: int| first_bad_key(v, b, j) ==> ret == Err::<(), EncodeError>(EncodeError::MismatchingMapKeyValueKind {
+                key_value_kind: kind_byte(v->Map_key_value_kind), actual_value_kind: kind_byte(kind_of(v->Map_entries@[j].0)) }))
+        &&& (forall|j: int| first_bad_val(v, b, j) ==> ret == Err::<(), EncodeError>(EncodeError::MismatchingMapValueValueKind {
+                value_value_kind: kind_byte(v->Map_value_value_kind), actual_value_kind: kind_byte(kind_of(v->Map_entries@[j].1)) }))
     }
-    impl<X: CustomValueKind, E: Encoder<X>, Y: Encode<X, E> + CustomValue<X>> EncodeStep<X, E> for Value<X, Y> {
-        /// E2, exact errors: oversized container; FIRST kind-mismatching array element / map key / map value
-        open spec fn extra_post(&self, b: int, ret: Result<(), EncodeError>) -> bool {
-            &&& (container_len(*self) is Some && container_len(*self)->Some_0 > max_size() ==> ret == Err::<(), EncodeError>(EncodeError::SizeTooLarge { actual: container_len(*self)->Some_0 as usize, max_allowed: 0x0FFF_FFFF }))
-            &&& (forall|j: int| first_bad_elem(*self, b, j) ==> ret == Err::<(), EncodeError>(EncodeError::MismatchingArrayElementValueKind {
-                    element_value_kind: kind_byte(self->Array_element_value_kind), actual_value_kind: kind_byte(kind_of(self->Array_elements@[j])) }))
-            &&& (forall|j: int| first_bad_key(*self, b, j) ==> ret == Err::<(), EncodeError>(EncodeError::MismatchingMapKeyValueKind {
-                    key_value_kind: kind_byte(self->Map_key_value_kind), actual_value_kind: kind_byte(kind_of(self->Map_entries@[j].0)) }))
-            &&& (forall|j: int| first_bad_val(*self, b, j) ==> ret == Err::<(), EncodeError>(EncodeError::MismatchingMapValueValueKind {
-                    value_value_kind: kind_byte(self->Map_value_value_kind), actual_value_kind: kind_byte(kind_of(self->Map_entries@[j].1)) }))
-        }
+    /// The verbatim bodies of `impl Encode for Value<X, Y>`, verified against the contract predicates of `Encode` (see env,
+    /// "INDUCTION HYPOTHESIS"). They are placed in an INHERENT impl; the impl-level type parameter E (and the bound
+    /// Y: Encode<X, E>) therefore moves to the method (@subst on the signature only, bodies untouched).
+    impl<X: CustomValueKind, Y: CustomValue<X>> Value<X, Y> {
         /*@fn sbor/src/value.rs :: impl<X: CustomValueKind, E: Encoder<X>, Y: Encode<X, E> + CustomValue<X>> Encode<X, E> for Value<X, Y> :: fn encode_value_kind
+        @subst <<fn encode_value_kind(>> => <<fn encode_value_kind<E: Encoder<X>>(>> why: impl-level type parameter E of `impl Encode<X, E> for Value<X, Y>` moved to the method (inherent impl, see above); signature only
+        @sig
+            where Y: Encode<X, E>
+            ensures enc_kind_post(self, old(encoder).out(), old(encoder).depths(), final(encoder).out(), final(encoder).depths(), ret)
         @*/
+        #[verifier::exec_allows_no_decreases_clause]
         /*@fn sbor/src/value.rs :: impl<X: CustomValueKind, E: Encoder<X>, Y: Encode<X, E> + CustomValue<X>> Encode<X, E> for Value<X, Y> :: fn encode_body
+        @subst <<fn encode_body(>> => <<fn encode_body<E: Encoder<X>>(>> why: impl-level type parameter E of `impl Encode<X, E> for Value<X, Y>` moved to the method (inherent impl, see above); signature only
+        @sig
+            where Y: Encode<X, E>
+            requires wf_depths(old(encoder).depths())
+            ensures
+                enc_body_post(self, old(encoder).out(), old(encoder).depths(), final(encoder).out(), final(encoder).depths(), ret),
+                enc_extra_post(*self, budget(old(encoder).depths()), ret),
+                // DEPTH: Ok implies that the whole tree below this value fits the depth limit
+                ret is Ok ==> old(encoder).depths().0 + height(*self) - 1 <= old(encoder).depths().1
+        @before <<Ok(())>> #1
+            proof { lemma_encodable_height(*self, budget(old(encoder).depths())); }
         @loop 1 iter it
             invariant
                 *self is Enum, self->Enum_fields == *fields, self->Enum_discriminator == *discriminator,
@@ -687,7 +916,7 @@ pub mod unit {
                 encoder.out() =~= old(encoder).out() + seq![kind_byte(*element_value_kind)] + leb(elements@.len() as nat) + enc_list(*elements, it.index@ as nat, false),
                 forall|j: int| 0 <= j < it.index@ ==> kind_of(#[trigger] elements@[j]) == *element_value_kind
                     && budget(old(encoder).depths()) >= 1 && encodable(elements@[j], budget(old(encoder).depths()) - 1),
-        @before <<if item.get_value_kind()>> #1
+        @before <<encoder.encode_deeper_body(item)?>> #1
             proof { assert(*item == elements@[it.index@ as int]); }
         @loop 3 iter it
             invariant
@@ -716,6 +945,362 @@ pub mod unit {
                     && b >= 1 && encodable(entry.0, b - 1) && encodable(entry.1, b - 1)));
             }
         @*/
+    }
+
+
+    // =============================================================================================
+    // the decoder (sbor/src/decoder.rs)
+    // =============================================================================================
+    /// a kind byte accepted by the decoder is the byte the encoder writes for that kind
+    pub proof fn lemma_kind_bytes<X: CustomValueKind>(b: u8)
+        ensures byte_kind::<X>(b) matches Some(k) ==> kind_byte(k) == b
+    {
+        X::law_from_as(b);
+    }
+    /// and the kind byte written by the encoder is read back as the same kind
+    pub proof fn lemma_byte_kinds<X: CustomValueKind>(k: ValueKind<X>)
+        ensures byte_kind::<X>(kind_byte(k)) == Some(k)
+    {
+        if let ValueKind::Custom(x) = k { X::law_as_from(x); }
+    }
+    pub proof fn lemma_prefix_sub(a: Seq<u8>, inp: Seq<u8>, pos: int)
+        requires 0 <= pos <= inp.len(), is_prefix(a, rest_of(inp, pos))
+        ensures pos + a.len() <= inp.len(), inp.subrange(pos, pos + a.len()) =~= a
+    {
+        assert forall|j: int| 0 <= j < a.len() implies inp.subrange(pos, pos + a.len())[j] == a[j] by {
+            assert(rest_of(inp, pos)[j] == inp[pos + j]);
+        }
+    }
+    pub open spec fn vlen<X: CustomValueKind, Y: CustomValue<X>>(items: Vec<Value<X, Y>>) -> nat { items@.len() }
+    pub open spec fn elen<X: CustomValueKind, Y: CustomValue<X>>(entries: Vec<(Value<X, Y>, Value<X, Y>)>) -> nat { entries@.len() }
+    /// the first n items are encodable one level deeper (and, for arrays, have the declared kind)
+    pub open spec fn items_ok<X: CustomValueKind, Y: CustomValue<X>>(items: Vec<Value<X, Y>>, n: int, ek: Option<ValueKind<X>>, b: int) -> bool {
+        forall|j: int| 0 <= j < n ==> (ek matches Some(k) ==> kind_of(#[trigger] items@[j]) == k) && b >= 1 && encodable(items@[j], b - 1)
+    }
+    pub open spec fn entries_ok<X: CustomValueKind, Y: CustomValue<X>>(entries: Vec<(Value<X, Y>, Value<X, Y>)>, n: int, kk: ValueKind<X>, vk: ValueKind<X>, b: int) -> bool {
+        forall|j: int| 0 <= j < n ==> kind_of((#[trigger] entries@[j]).0) == kk && kind_of(entries@[j].1) == vk
+            && b >= 1 && encodable(entries@[j].0, b - 1) && encodable(entries@[j].1, b - 1)
+    }
+    pub proof fn lemma_enc_list_prefix<X: CustomValueKind, Y: CustomValue<X>>(a: Vec<Value<X, Y>>, b: Vec<Value<X, Y>>, n: nat, wk: bool)
+        requires n <= a@.len(), n <= b@.len(), forall|j: int| 0 <= j < n ==> a@[j] == b@[j]
+        ensures enc_list(a, n, wk) == enc_list(b, n, wk)
+        decreases n
+    {
+        if n > 0 { lemma_enc_list_prefix(a, b, (n - 1) as nat, wk); }
+    }
+    pub proof fn lemma_enc_entries_prefix<X: CustomValueKind, Y: CustomValue<X>>(a: Vec<(Value<X, Y>, Value<X, Y>)>, b: Vec<(Value<X, Y>, Value<X, Y>)>, n: nat)
+        requires n <= a@.len(), n <= b@.len(), forall|j: int| 0 <= j < n ==> a@[j] == b@[j]
+        ensures enc_entries(a, n) == enc_entries(b, n)
+        decreases n
+    {
+        if n > 0 { lemma_enc_entries_prefix(a, b, (n - 1) as nat); }
+    }
+
+    pub trait Decoder<X: CustomValueKind>: DecoderState {
+        /*@fn sbor/src/decoder.rs :: trait Decoder<X: CustomValueKind>: Sized :: fn decode
+        @sig
+            requires wf_dec(old(self).input(), old(self).pos(), old(self).depths())
+            ensures
+                final(self).input() == old(self).input(), final(self).depths().1 == old(self).depths().1,
+                ret matches Ok(v) ==> final(self).depths() == old(self).depths() && old(self).pos() < final(self).pos() <= old(self).input().len()
+                    && old(self).input().subrange(old(self).pos(), final(self).pos()) =~= seq![kind_byte(v.kind())] + v.body()
+                    && passes(&v, budget(old(self).depths()))
+        @entry
+            proof { if self.pos() < self.input().len() { lemma_kind_bytes::<X>(self.input()[self.pos()]); } }
+        @*/
+
+        // R12: required method, signature re-declared; the VecDecoder impl below is extracted and must meet it
+        fn decode_deeper_body_with_value_kind<T: Decode<X, Self>>(&mut self, value_kind: ValueKind<X>) -> (ret: Result<T, DecodeError>)
+            requires wf_dec(old(self).input(), old(self).pos(), old(self).depths())
+            ensures
+                final(self).input() == old(self).input(), final(self).depths().1 == old(self).depths().1,
+                budget(old(self).depths()) < 1 ==> ret == Err::<T, DecodeError>(DecodeError::MaxDepthExceeded(old(self).depths().1 as usize)),
+                ret matches Ok(v) ==> v.kind() == value_kind && final(self).depths() == old(self).depths()
+                    && old(self).pos() <= final(self).pos() <= old(self).input().len()
+                    && old(self).input().subrange(old(self).pos(), final(self).pos()) =~= v.body()
+                    && passes(&v, budget(old(self).depths()));
+
+        /*@fn sbor/src/decoder.rs :: trait Decoder<X: CustomValueKind>: Sized :: fn read_value_kind
+        @sig
+            requires wf_at(old(self).input(), old(self).pos())
+            ensures
+                wf_at(final(self).input(), final(self).pos()), final(self).input() == old(self).input(), final(self).depths() == old(self).depths(), final(self).pos() >= old(self).pos(),
+                ret is Ok <==> old(self).pos() < old(self).input().len() && byte_kind::<X>(old(self).input()[old(self).pos()]) is Some,
+                ret matches Ok(k) ==> Some(k) == byte_kind::<X>(old(self).input()[old(self).pos()]) && final(self).pos() == old(self).pos() + 1,
+                ret matches Err(e) ==> e == (if old(self).pos() < old(self).input().len() { DecodeError::UnknownValueKind(old(self).input()[old(self).pos()]) }
+                    else { DecodeError::BufferUnderflow { required: 1, remaining: 0 } })
+        @*/
+        /*@fn sbor/src/decoder.rs :: trait Decoder<X: CustomValueKind>: Sized :: fn read_discriminator
+        @sig
+            requires wf_at(old(self).input(), old(self).pos())
+            ensures
+                wf_at(final(self).input(), final(self).pos()), final(self).input() == old(self).input(), final(self).depths() == old(self).depths(), final(self).pos() >= old(self).pos(),
+                ret is Ok <==> old(self).pos() < old(self).input().len(),
+                ret matches Ok(b) ==> b == old(self).input()[old(self).pos()] && final(self).pos() == old(self).pos() + 1,
+                ret matches Err(e) ==> e == (DecodeError::BufferUnderflow { required: 1, remaining: 0 })
+        @*/
+        /*@fn sbor/src/decoder.rs :: trait Decoder<X: CustomValueKind>: Sized :: fn check_preloaded_value_kind
+        @sig
+            ensures
+                ret is Ok <==> value_kind == expected,
+                ret matches Ok(k) ==> k == value_kind,
+                ret matches Err(e) ==> e == (DecodeError::UnexpectedValueKind { expected: kind_byte(expected), actual: kind_byte(value_kind) })
+        @*/
+
+        // R12: required method
+        fn read_byte(&mut self) -> (ret: Result<u8, DecodeError>)
+            requires wf_at(old(self).input(), old(self).pos())
+            ensures
+                wf_at(final(self).input(), final(self).pos()), final(self).input() == old(self).input(), final(self).depths() == old(self).depths(), final(self).pos() >= old(self).pos(),
+                ret is Ok <==> old(self).pos() < old(self).input().len(),
+                ret matches Ok(b) ==> b == old(self).input()[old(self).pos()] && final(self).pos() == old(self).pos() + 1,
+                ret matches Err(e) ==> final(self).pos() == old(self).pos() && e == (DecodeError::BufferUnderflow { required: 1, remaining: 0 });
+    }
+
+    /*@item sbor/src/decoder.rs :: struct VecDecoder
+    @*/
+    impl<'de, X: CustomValueKind> VecDecoder<'de, X> {
+        /*@fn sbor/src/decoder.rs :: impl<'de, X: CustomValueKind> VecDecoder<'de, X> :: fn new
+        @sig
+            ensures ret.input() == input@, ret.pos() == 0, ret.depths() == (0int, max_depth as int)
+        @*/
+        /*@fn sbor/src/decoder.rs :: impl<'de, X: CustomValueKind> VecDecoder<'de, X> :: fn require_remaining
+        @sig
+            requires wf_at(self.input(), self.pos())
+            ensures
+                ret is Ok <==> n <= self.input().len() - self.pos(),
+                ret matches Err(e) ==> e == (DecodeError::BufferUnderflow { required: n, remaining: (self.input().len() - self.pos()) as usize })
+        @*/
+        /*@fn sbor/src/decoder.rs :: impl<'de, X: CustomValueKind> VecDecoder<'de, X> :: fn remaining_bytes
+        @sig
+            requires wf_at(self.input(), self.pos())
+            ensures ret == self.input().len() - self.pos()
+        @*/
+        /*@fn sbor/src/decoder.rs :: impl<'de, X: CustomValueKind> VecDecoder<'de, X> :: fn track_stack_depth_increase
+        @sig
+            requires old(self).depths().0 < usize::MAX
+            ensures
+                final(self).input() == old(self).input(), final(self).pos() == old(self).pos(),
+                final(self).depths() == (old(self).depths().0 + 1, old(self).depths().1),
+                ret is Ok <==> old(self).depths().0 < old(self).depths().1,
+                ret matches Err(e) ==> e == DecodeError::MaxDepthExceeded(old(self).max_depth)
+        @*/
+        /*@fn sbor/src/decoder.rs :: impl<'de, X: CustomValueKind> VecDecoder<'de, X> :: fn track_stack_depth_decrease
+        @sig
+            requires old(self).depths().0 >= 1
+            ensures
+                final(self).input() == old(self).input(), final(self).pos() == old(self).pos(),
+                final(self).depths() == (old(self).depths().0 - 1, old(self).depths().1),
+                ret is Ok
+        @*/
+    }
+    impl<'de, X: CustomValueKind> Decoder<X> for VecDecoder<'de, X> {
+        /*@fn sbor/src/decoder.rs :: impl<'de, X: CustomValueKind> Decoder<X> for VecDecoder<'de, X> :: fn decode_deeper_body_with_value_kind
+        @*/
+        /*@fn sbor/src/decoder.rs :: impl<'de, X: CustomValueKind> Decoder<X> for VecDecoder<'de, X> :: fn read_byte
+        @*/
+    }
+
+    // =============================================================================================
+    // the Value codec, decode side (sbor/src/value.rs)
+    // =============================================================================================
+    /// verbatim body of `impl Decode for Value<X, Y>`, as an inherent associated function (see the encode side)
+    impl<X: CustomValueKind, Y: CustomValue<X>> Value<X, Y> {
+        #[verifier::exec_allows_no_decreases_clause]
+        /*@fn sbor/src/value.rs :: impl<X: CustomValueKind, D: Decoder<X>, Y: Decode<X, D> + CustomValue<X>> Decode<X, D> for Value<X, Y> :: fn decode_body_with_value_kind
+        @subst <<fn decode_body_with_value_kind(>> => <<fn decode_body_with_value_kind<D: Decoder<X>>(>> why: impl-level type parameter D of `impl Decode<X, D> for Value<X, Y>` moved to the function (inherent impl); signature only
+        @sig
+            where Y: Decode<X, D>
+            requires wf_dec(old(decoder).input(), old(decoder).pos(), old(decoder).depths())
+            ensures dec_body_post(value_kind, old(decoder).input(), old(decoder).pos(), old(decoder).depths(), final(decoder).input(), final(decoder).pos(), final(decoder).depths(), ret)
+        @entry
+            let ghost inp = decoder.input(); let ghost p0 = decoder.pos(); let ghost d0 = decoder.depths(); let ghost b = budget(decoder.depths());
+            proof { if p0 < inp.len() { lemma_kind_bytes::<X>(inp[p0]); } if p0 + 1 < inp.len() { lemma_kind_bytes::<X>(inp[p0 + 1]); } }
+        @after <<let length = decoder.read_size()?>> #1
+            let ghost hdr = inp.subrange(p0, decoder.pos());
+            proof { lemma_prefix_sub(leb(length as nat), inp, p0); }
+        @loop 1 iter it
+            invariant
+                value_kind == ValueKind::<X>::Tuple,
+                inp == old(decoder).input(), p0 == old(decoder).pos(), d0 == old(decoder).depths(), b == budget(d0),
+                decoder.input() == inp, decoder.depths() == d0, wf_dec(inp, decoder.pos(), d0), 0 <= p0 <= decoder.pos(),
+                length <= 0x0FFF_FFFF, vlen::<X, Y>(fields) == it.index@,
+                hdr == leb(length as nat),
+                inp.subrange(p0, decoder.pos()) =~= hdr + enc_list::<X, Y>(fields, it.index@ as nat, true),
+                items_ok::<X, Y>(fields, it.index@ as int, None, b),
+        @before <<fields.push(decoder.decode()?)>> #1
+            let ghost f0 = fields; let ghost pa = decoder.pos();
+        @after <<fields.push(decoder.decode()?)>> #1
+            proof {
+                lemma_enc_list_prefix::<X, Y>(f0, fields, vlen::<X, Y>(f0), true);
+                assert(inp.subrange(p0, decoder.pos()) =~= inp.subrange(p0, pa) + inp.subrange(pa, decoder.pos()));
+            }
+        @after <<let discriminator = decoder.read_discriminator()?>> #1
+            proof { assert(inp.subrange(p0, p0 + 1) =~= seq![discriminator]); }
+        @after <<let length = decoder.read_size()?>> #2
+            let ghost hdr = inp.subrange(p0, decoder.pos());
+            proof {
+                lemma_prefix_sub(leb(length as nat), inp, p0 + 1);
+                assert(hdr =~= inp.subrange(p0, p0 + 1) + inp.subrange(p0 + 1, decoder.pos()));
+            }
+        @loop 2 iter it
+            invariant
+                value_kind == ValueKind::<X>::Enum,
+                inp == old(decoder).input(), p0 == old(decoder).pos(), d0 == old(decoder).depths(), b == budget(d0),
+                decoder.input() == inp, decoder.depths() == d0, wf_dec(inp, decoder.pos(), d0), 0 <= p0 <= decoder.pos(),
+                length <= 0x0FFF_FFFF, vlen::<X, Y>(fields) == it.index@,
+                hdr == seq![discriminator] + leb(length as nat),
+                inp.subrange(p0, decoder.pos()) =~= hdr + enc_list::<X, Y>(fields, it.index@ as nat, true),
+                items_ok::<X, Y>(fields, it.index@ as int, None, b),
+        @before <<fields.push(decoder.decode()?)>> #2
+            let ghost f0 = fields; let ghost pa = decoder.pos();
+        @after <<fields.push(decoder.decode()?)>> #2
+            proof {
+                lemma_enc_list_prefix::<X, Y>(f0, fields, vlen::<X, Y>(f0), true);
+                assert(inp.subrange(p0, decoder.pos()) =~= inp.subrange(p0, pa) + inp.subrange(pa, decoder.pos()));
+            }
+        @after <<let element_value_kind = decoder.read_value_kind()?>> #1
+            proof { assert(inp.subrange(p0, p0 + 1) =~= seq![kind_byte(element_value_kind)]); }
+        @after <<let length = decoder.read_size()?>> #3
+            let ghost hdr = inp.subrange(p0, decoder.pos());
+            proof {
+                lemma_prefix_sub(leb(length as nat), inp, p0 + 1);
+                assert(hdr =~= inp.subrange(p0, p0 + 1) + inp.subrange(p0 + 1, decoder.pos()));
+            }
+        @loop 3 iter it
+            invariant
+                value_kind == ValueKind::<X>::Array,
+                inp == old(decoder).input(), p0 == old(decoder).pos(), d0 == old(decoder).depths(), b == budget(d0),
+                decoder.input() == inp, decoder.depths() == d0, wf_dec(inp, decoder.pos(), d0), 0 <= p0 <= decoder.pos(),
+                length <= 0x0FFF_FFFF, vlen::<X, Y>(elements) == it.index@,
+                hdr == seq![kind_byte(element_value_kind)] + leb(length as nat),
+                inp.subrange(p0, decoder.pos()) =~= hdr + enc_list::<X, Y>(elements, it.index@ as nat, false),
+                items_ok::<X, Y>(elements, it.index@ as int, Some(element_value_kind), b),
+        @before <<elements.push(>> #1
+            let ghost f0 = elements; let ghost pa = decoder.pos();
+        @after <<elements.push(>> #1
+            proof {
+                lemma_enc_list_prefix::<X, Y>(f0, elements, vlen::<X, Y>(f0), false);
+                assert(inp.subrange(p0, decoder.pos()) =~= inp.subrange(p0, pa) + inp.subrange(pa, decoder.pos()));
+            }
+        @after <<let value_value_kind = decoder.read_value_kind()?>> #1
+            proof { assert(inp.subrange(p0, p0 + 2) =~= seq![kind_byte(key_value_kind)] + seq![kind_byte(value_value_kind)]); }
+        @after <<let length = decoder.read_size()?>> #4
+            let ghost hdr = inp.subrange(p0, decoder.pos());
+            proof {
+                lemma_prefix_sub(leb(length as nat), inp, p0 + 2);
+                assert(hdr =~= inp.subrange(p0, p0 + 2) + inp.subrange(p0 + 2, decoder.pos()));
+            }
+        @loop 4 iter it
+            invariant
+                value_kind == ValueKind::<X>::Map,
+                inp == old(decoder).input(), p0 == old(decoder).pos(), d0 == old(decoder).depths(), b == budget(d0),
+                decoder.input() == inp, decoder.depths() == d0, wf_dec(inp, decoder.pos(), d0), 0 <= p0 <= decoder.pos(),
+                length <= 0x0FFF_FFFF, elen::<X, Y>(entries) == it.index@,
+                hdr == seq![kind_byte(key_value_kind)] + seq![kind_byte(value_value_kind)] + leb(length as nat),
+                inp.subrange(p0, decoder.pos()) =~= hdr + enc_entries::<X, Y>(entries, it.index@ as nat),
+                entries_ok::<X, Y>(entries, it.index@ as int, key_value_kind, value_value_kind, b),
+        @before <<entries.push(>> #1
+            let ghost f0 = entries; let ghost pa = decoder.pos();
+        @after <<entries.push(>> #1
+            proof {
+                lemma_enc_entries_prefix::<X, Y>(f0, entries, elen::<X, Y>(f0));
+                let e = entries@[elen::<X, Y>(f0) as int];
+                assert(inp.subrange(pa, decoder.pos()) =~= enc_body(e.0) + enc_body(e.1));
+                assert(inp.subrange(p0, decoder.pos()) =~= inp.subrange(p0, pa) + inp.subrange(pa, decoder.pos()));
+            }
+        @*/
+    }
+
+    impl<X: CustomValueKind, D: Decoder<X>> Decode<X, D> for bool {
+        /*@fn sbor/src/codec/boolean.rs :: impl<X: CustomValueKind, D: Decoder<X>> Decode<X, D> for bool :: fn decode_body_with_value_kind
+        @*/
+    }
+    impl<X: CustomValueKind, D: Decoder<X>> Decode<X, D> for u8 {
+        /*@fn sbor/src/codec/integer.rs :: impl<X: CustomValueKind, D: Decoder<X>> Decode<X, D> for u8 :: fn decode_body_with_value_kind
+        @*/
+    }
+
+
+    // =============================================================================================
+    // the two custom extensions of radix-common obey the CustomValueKind law (bodies extracted)
+    // =============================================================================================
+    /*@item radix-common/src/data/scrypto/custom_value_kind.rs :: const VALUE_KIND_REFERENCE
+    @*/
+    /*@item radix-common/src/data/scrypto/custom_value_kind.rs :: const VALUE_KIND_OWN
+    @*/
+    /*@item radix-common/src/data/scrypto/custom_value_kind.rs :: const VALUE_KIND_DECIMAL
+    @*/
+    /*@item radix-common/src/data/scrypto/custom_value_kind.rs :: const VALUE_KIND_PRECISE_DECIMAL
+    @*/
+    /*@item radix-common/src/data/scrypto/custom_value_kind.rs :: const VALUE_KIND_NON_FUNGIBLE_LOCAL_ID
+    @*/
+    /*@item radix-common/src/data/scrypto/custom_value_kind.rs :: enum ScryptoCustomValueKind
+    @derive Copy, Clone, PartialEq, Eq
+    @*/
+    impl CustomValueKind for ScryptoCustomValueKind {
+        open spec fn as_u8_spec(&self) -> u8 {
+            match *self {
+                ScryptoCustomValueKind::Reference => 0x80, ScryptoCustomValueKind::Own => 0x90, ScryptoCustomValueKind::Decimal => 0xa0,
+                ScryptoCustomValueKind::PreciseDecimal => 0xb0, ScryptoCustomValueKind::NonFungibleLocalId => 0xc0,
+            }
+        }
+        open spec fn from_u8_spec(id: u8) -> Option<Self> {
+            if id == 0x80 { Some(ScryptoCustomValueKind::Reference) } else if id == 0x90 { Some(ScryptoCustomValueKind::Own) }
+            else if id == 0xa0 { Some(ScryptoCustomValueKind::Decimal) } else if id == 0xb0 { Some(ScryptoCustomValueKind::PreciseDecimal) }
+            else if id == 0xc0 { Some(ScryptoCustomValueKind::NonFungibleLocalId) } else { None }
+        }
+        /*@fn radix-common/src/data/scrypto/custom_value_kind.rs :: impl CustomValueKind for ScryptoCustomValueKind :: fn as_u8
+        @*/
+        /*@fn radix-common/src/data/scrypto/custom_value_kind.rs :: impl CustomValueKind for ScryptoCustomValueKind :: fn from_u8
+        @*/
+        proof fn law_as_from(x: Self) {}
+        proof fn law_from_as(id: u8) {}
+    }
+    /*@item radix-common/src/data/manifest/custom_value_kind.rs :: const MANIFEST_VALUE_KIND_ADDRESS
+    @*/
+    /*@item radix-common/src/data/manifest/custom_value_kind.rs :: const MANIFEST_VALUE_KIND_BUCKET
+    @*/
+    /*@item radix-common/src/data/manifest/custom_value_kind.rs :: const MANIFEST_VALUE_KIND_PROOF
+    @*/
+    /*@item radix-common/src/data/manifest/custom_value_kind.rs :: const MANIFEST_VALUE_KIND_EXPRESSION
+    @*/
+    /*@item radix-common/src/data/manifest/custom_value_kind.rs :: const MANIFEST_VALUE_KIND_BLOB
+    @*/
+    /*@item radix-common/src/data/manifest/custom_value_kind.rs :: const MANIFEST_VALUE_KIND_DECIMAL
+    @*/
+    /*@item radix-common/src/data/manifest/custom_value_kind.rs :: const MANIFEST_VALUE_KIND_PRECISE_DECIMAL
+    @*/
+    /*@item radix-common/src/data/manifest/custom_value_kind.rs :: const MANIFEST_VALUE_KIND_NON_FUNGIBLE_LOCAL_ID
+    @*/
+    /*@item radix-common/src/data/manifest/custom_value_kind.rs :: const MANIFEST_VALUE_KIND_ADDRESS_RESERVATION
+    @*/
+    /*@item radix-common/src/data/manifest/custom_value_kind.rs :: enum ManifestCustomValueKind
+    @derive Copy, Clone, PartialEq, Eq
+    @*/
+    impl CustomValueKind for ManifestCustomValueKind {
+        open spec fn as_u8_spec(&self) -> u8 {
+            match *self {
+                ManifestCustomValueKind::Address => 0x80, ManifestCustomValueKind::Bucket => 0x81,
+                ManifestCustomValueKind::Proof => 0x82, ManifestCustomValueKind::Expression => 0x83,
+                ManifestCustomValueKind::Blob => 0x84, ManifestCustomValueKind::Decimal => 0x85,
+                ManifestCustomValueKind::PreciseDecimal => 0x86, ManifestCustomValueKind::NonFungibleLocalId => 0x87,
+                ManifestCustomValueKind::AddressReservation => 0x88,
+            }
+        }
+        open spec fn from_u8_spec(id: u8) -> Option<Self> {
+            if id == 0x80 { Some(ManifestCustomValueKind::Address) } else if id == 0x81 { Some(ManifestCustomValueKind::Bucket) }
+            else if id == 0x82 { Some(ManifestCustomValueKind::Proof) } else if id == 0x83 { Some(ManifestCustomValueKind::Expression) }
+            else if id == 0x84 { Some(ManifestCustomValueKind::Blob) } else if id == 0x85 { Some(ManifestCustomValueKind::Decimal) }
+            else if id == 0x86 { Some(ManifestCustomValueKind::PreciseDecimal) } else if id == 0x87 { Some(ManifestCustomValueKind::NonFungibleLocalId) }
+            else if id == 0x88 { Some(ManifestCustomValueKind::AddressReservation) } else { None }
+        }
+        /*@fn radix-common/src/data/manifest/custom_value_kind.rs :: impl CustomValueKind for ManifestCustomValueKind :: fn as_u8
+        @*/
+        /*@fn radix-common/src/data/manifest/custom_value_kind.rs :: impl CustomValueKind for ManifestCustomValueKind :: fn from_u8
+        @*/
+        proof fn law_as_from(x: Self) {}
+        proof fn law_from_as(id: u8) {}
     }
 
     // =============================================================================================
